@@ -1,5 +1,6 @@
 import Iavl.Lemmas.Versions
 import Iavl.Lemmas.Contig
+import Iavl.Lemmas.ContigHistory
 import Iavl.Model.FirstVersion
 import Iavl.Generated.FactsOk
 /-
@@ -55,6 +56,33 @@ theorem delete_keeps_range_contiguous (s : VState C) (n : Nat) (h : Contig (verN
     Contig (verNums (s.step ct (.prune n)).1) ∧ Contig (verNums (s.step ct (.delfrom n)).1) ∧
     Contig (verNums (s.step ct (.loadow n)).1) :=
   ⟨prune_keeps_contig ct s n h, delfrom_keeps_contig ct s n h, loadow_keeps_contig ct s n h⟩
+
+/-- **for every history**: in every state the version machine reaches from an empty store the available
+    versions are a contiguous range of positive numbers and the tree object is positioned at or below
+    the latest one — provided no step is one of the two documented misuses (`OpOk`: a bare
+    `DeleteVersionsFrom` that removes the version the object is positioned on while older versions survive;
+    a first commit through a never-loaded object on a non-empty store with an initial version beyond
+    latest + 1). Rollbacks that delete *every* version, pruning of the loaded version, reopening with any
+    option and failed loads are all inside the quantifier. -/
+theorem versions_contiguous_in_every_history (iv : Option Nat) (ops : List (Op K V))
+    (hok : RunOk ct { versions := [], working := ct.empty, lastSaved := ct.empty, base := 0,
+                      ivOpt := iv.getD 0, ivSet := iv.isSome } ops) :
+    let s := VState.run ct { versions := [], working := ct.empty, lastSaved := ct.empty, base := 0,
+                             ivOpt := iv.getD 0, ivSet := iv.isSome } ops
+    Contig (verNums s) ∧ (∀ v ∈ verNums s, 0 < v) ∧ (s.versions = [] ∨ s.base ≤ latestVer s.versions) := by
+  have h := run_cinv ct _ ⟨by simp [verNums, Contig], by intro v hv; simp [verNums] at hv, Or.inl rfl⟩ ops hok
+  exact ⟨h.contig, h.pos, h.tip⟩
+
+/-- the side conditions are met by a non-trivial history (initial version 5; commits, a rollback that
+    deletes everything, a reopen, pruning of the loaded version) and the outcome is what the theorem says -/
+example :
+    let ops : List (Op Nat Nat) := [.set 1 1, .save true, .set 2 2, .save true, .save true, .load 5, .prune 5,
+      .delfrom 6, .reopen (some 5) 0, .set 3 3, .save true, .save true]
+    RunOk (mapContent (K := Nat) (V := Nat)) (initM (some 5)) ops ∧
+      verNums (VState.run mapContent (initM (some 5)) ops) = [5, 6] := by
+  refine ⟨?_, by decide⟩
+  simp only [RunOk, OpOk, and_true, true_and]
+  refine ⟨?_, ?_, ?_, ?_, ?_, ?_⟩ <;> decide
 
 theorem numbering : Facts.genesisVersion = 1 := Facts.numbering_ok.1
 
